@@ -716,3 +716,18 @@ mod tests {
         }
     }
 }
+
+#[cfg(wtransport_verif)]
+#[doc(hidden)]
+#[allow(missing_docs)]
+pub mod verif {
+    use super::*;
+
+    pub fn frame_kind_parse(id: VarInt) -> Option<FrameKind> {
+        FrameKind::parse(id)
+    }
+
+    pub fn frame_kind_id(kind: FrameKind) -> VarInt {
+        kind.id()
+    }
+}
